@@ -105,6 +105,21 @@ def run(res, drv, tier, seed):
             calls = [{'meas': [t], 'total': None, 'engine': r.choice(['MD', 'RDA', 'IG']), 'iters': None} for t in twins] + calls[:2]
             hist_len = len(calls)
             res.count('histories re-measuring one projection with another workload of the same shape')
+        if ci % 3 == 1 and prob['meas']:
+            # a later call with the total omitted whose queries cannot express the count (difference queries): the total must be 1, whatever
+            # totals earlier calls on this estimator used
+            base = r.choice(prob['meas'])
+            p_ = base['Q'].shape[1]
+            if p_ >= 2:
+                D = np.array([[1.0 if k == i else (-1.0 if k == i + 1 else 0.0) for k in range(p_)] for i in range(p_ - 1)])
+                xs = np.linalg.lstsq(base['Q'], base['y'], rcond=None)[0]
+                und = dict(base, Q=D, y=D @ xs)
+                prob['meas'] = prob['meas'] + [und]
+                calls = calls[:2] + [{'meas': [und], 'total': None, 'engine': r.choice(['MD', 'RDA', 'IG']), 'iters': None}]
+                if calls[0]['total'] is None:
+                    calls[0]['total'] = float(prob['N'])
+                hist_len = len(calls)
+                res.count('histories ending with a call whose queries cannot express the count (total omitted)')
         iters = r.choice([1, 3, 12])
         canon = dict(estgen.canon_problem(prob), iters=iters,
                      history=[{'meas_idx': [next(i for i, mm in enumerate(prob['meas']) if mm is m) for m in c['meas']], 'total': c['total'], 'engine': c['engine']} for c in calls])
@@ -164,15 +179,21 @@ def warm_start_clause(res, r, tier):
     """with warm start, estimation over a grown measurement list reaches the cold-start optimum (a test)"""
     import contextlib, io
     for _ in range(4 if tier == 'quick' else 30):
-        prob = estgen.gen_problem(r, nmeas=3, with_zeros=False)
+        wz = (_ % 2 == 1)
+        prob = estgen.gen_problem(r, nmeas=3, with_zeros=wz)
         total = float(prob['N'])
-        warm = estgen.make_engine(prob['dom'], {}, iters=400, warm_start=True)
-        cold = estgen.make_engine(prob['dom'], {}, iters=400, warm_start=False)
+        warm = estgen.make_engine(prob['dom'], prob['zeros'] if wz else {}, iters=400, warm_start=True)
+        cold = estgen.make_engine(prob['dom'], prob['zeros'] if wz else {}, iters=400, warm_start=False)
+        if wz:
+            res.count('warm-start clause with structural zeros')
         kept, bad = [], None
         with contextlib.redirect_stdout(io.StringIO()), np.errstate(all='ignore'):
             # grown lists, then the full list again with fresh noisy answers (same structure, new data) and a changed total;
             # every model handed back is kept by the caller and re-queried after each later call
             steps = [(prob['meas'][:k], total) for k in range(1, len(prob['meas']) + 1)]
+            if wz:
+                # a changed list: the first measurement alone again, then the others without it (cliques that carried zeros may disappear)
+                steps += [(prob['meas'][:1], total), (prob['meas'][1:], total)]
             again = [dict(m, y=m['y'] + np.array([r.gauss(0, m['noise']) for _ in range(len(m['y']))])) for m in prob['meas']]
             steps += [(again, total), (prob['meas'], total * 1.5), (prob['meas'], total)]
             eng_cycle = ['MD', 'MD', 'IG', 'RDA']
@@ -195,6 +216,14 @@ def warm_start_clause(res, r, tier):
                 res.case({'warm-start': estgen.canon_problem(prob)}, True)
                 res.violation('failing-input', bad, {'request': estgen.canon_problem(prob), 'expected': bad}, key='history:warm-' + bad.split(':')[1][:24].strip().replace(' ', '-'))
                 continue
+            if wz and not bad:
+                import c10
+                zbad = c10.check_zeros(mw, prob, r, synth=False)
+                if zbad:
+                    bad = 'warm start with structural zeros: ' + zbad
+                    res.case({'warm-start': estgen.canon_problem(prob)}, True)
+                    res.violation('failing-input', bad, {'request': estgen.canon_problem(prob), 'expected': bad}, key='history:warm-zeros')
+                    continue
             mc = cold.estimate(estgen.to_measurements(prob['meas']), total=total, options={})
             lw = warm._marginal_loss(mw.belief_propagation(mw.potentials))[0]
             lc = cold._marginal_loss(mc.belief_propagation(mc.potentials))[0]
